@@ -325,6 +325,40 @@ def grammar_cover() -> List[Input]:
 
 
 # ---------------------------------------------------------------------------------------
+# identifier shapes: every definition kind x names the lexer accepts ([a-zA-Z_][a-zA-Z0-9_]*)
+# in the shapes the case-style converters of the renderers and the linter have to survive
+# ---------------------------------------------------------------------------------------
+
+NAME_SHAPES = ["_Frame", "Frame_", "Link__State", "_", "__", "___", "_x", "x_", "x__y", "__init__", "a", "Z", "a_b",
+               "A_B", "a_1", "_1", "a1", "A1b2", "x9_", "a__1", "ABC", "ABC_DEF", "HTTPServer2", "mixedCase",
+               "PascalCase", "snake_case_name", "_lead_and_trail_", "a_B_c_D", "x1_2_3", "RGB2HSV",
+               "N" * 300, "long_" * 60 + "x"]
+
+
+def identifier_shapes() -> List[Input]:
+    out: List[Input] = []
+
+    def add(kind: str, name: str, main: str):
+        out.append({"files": {"main.bitproto": main, "b.bitproto": IMPORTED}, "main": "main.bitproto",
+                    "origin": f"identifier-shape:{kind}:{name[:24]}"})
+
+    for nm in NAME_SHAPES:
+        add("message", nm, f"proto a\nmessage {nm} {{\n    uint3 x = 1\n}}\nmessage U {{\n    {nm} m = 1\n    {nm}[2] ms = 2\n}}\n")
+        add("enum", nm, f"proto a\nenum {nm} : uint3 {{\n    {nm.upper() if nm.strip('_') else 'K'}_ZERO = 0\n}}\n"
+                        f"message U {{\n    {nm} e = 1\n}}\n")
+        add("alias", nm, f"proto a\ntype {nm} = uint13\ntype {nm}Arr = {nm}[3]\nmessage U {{\n    {nm} t = 1\n    {nm}Arr ts = 2\n}}\n")
+        add("constant", nm, f"proto a\nconst {nm} = 7\nconst Other = {nm} * 2\nmessage U {{\n    bool[{nm}] bs = 1\n}}\n")
+        add("enum-member", nm, f"proto a\nenum E : uint3 {{\n    {nm} = 0\n    OTHER = 1\n}}\nmessage U {{\n    E e = 1\n}}\n")
+        add("field", nm, f"proto a\nmessage U {{\n    uint3 {nm} = 1\n    bool[2] other = 2\n}}\n")
+        add("import-as", nm, f"proto a\nimport {nm} \"b.bitproto\"\nmessage U {{\n    {nm}.B x = 1\n    {nm}.BE e = 2\n}}\n")
+        add("proto", nm, f"proto {nm}\nmessage U {{\n    uint3 x = 1\n}}\n")
+        add("option", nm, f"proto a\noption {nm} = 1\nmessage U {{\n    option {nm}.{nm} = \"v\"\n    uint3 x = 1\n}}\n")
+        add("nested", nm, f"proto a\nmessage Outer {{\n    message {nm} {{\n        enum {nm}E : uint1 {{\n            {nm}V = 0\n        }}\n"
+                          f"        {nm}E e = 1\n    }}\n    {nm} f = 1\n    {nm}.{nm}E g = 2\n}}\n")
+    return out
+
+
+# ---------------------------------------------------------------------------------------
 # inputs INSIDE the classes of the known findings (small, separate stream); the variants of
 # div-zero, empty-enum and import-in-message (fixed in /repo) stay as regression inputs
 # ---------------------------------------------------------------------------------------
